@@ -63,6 +63,16 @@ CHECKS.update({
             "DESIGN.md section 3 C17"),
 })
 
+CHECKS.update({
+    "C07": ("Bounded symbolic execution of the filter machinery: for each of ~70 enumerated filter configurations (every matcher kind as "
+            "include and as exclude, pairs, triples) FilterSet.match runs on a SYMBOLIC operation (method spelling, path text, tags, operationId, "
+            "deprecated / x-internal flags) and is compared with the reference reading 'some include (or none) and no exclude'; derived schemas "
+            "(include/exclude chains, siblings) must offer and count exactly what their own chain says; FilterArguments.into is run on pairs of "
+            "CLI options. Covers all operations within the string bounds for each configuration.",
+            "CrossHair symbolic execution (z3) of FilterSet/Matcher/by_value/by_regex/expression filters/FilterArguments.into over symbolic operations",
+            "DESIGN.md section 3 C07"),
+})
+
 NOT_APPLICABLE = {
     "C13": "Seed reproducibility is a 2-run hyper-property of the whole program through Hypothesis' engine, its PRNG, identity-keyed caches and "
            "set iteration order; none of it can be made a symbolic variable of a bounded encoding, and the only solver-shaped fragment "
